@@ -6,6 +6,7 @@ import (
 	"errors"
 	"fmt"
 	"math/rand/v2"
+	"sort"
 	"time"
 
 	dtls "github.com/pion/dtls/v3"
@@ -32,6 +33,10 @@ type C20Params struct {
 	// TickMs: if set, one more writer per side keeps writing every TickMs milliseconds for as long
 	// as updates are in progress (an application that never pauses longer than that)
 	TickMs int `json:"tick_ms,omitempty"`
+	// ForgeAck: that many cleartext (epoch 0) ACK records naming record numbers 0..31 of the
+	// epochs a KeyUpdate can be sent under are injected into each side at drawn times during the
+	// workload - what anybody who can spoof the peer's address can send without any key
+	ForgeAck int `json:"forge_ack,omitempty"`
 }
 
 func c20Counts(tier string) (int, int) {
@@ -49,6 +54,9 @@ func c20Gen(r *rand.Rand, tier string, idx int) any {
 		Replay: []int{0, 0, 4, 12}[r.IntN(4)], ForgeNext: r.IntN(2) == 0, LongEpoch: r.IntN(3) == 0}
 	if r.IntN(3) == 0 {
 		p.TickMs = []int{5, 20, 100, 400}[r.IntN(4)]
+	}
+	if r.IntN(4) == 0 {
+		p.ForgeAck = 1 + r.IntN(12)
 	}
 	if r.IntN(3) != 0 {
 		p.Rules = NetRules{DropPm: 30 + r.IntN(250), DupPm: r.IntN(150), HoldPm: r.IntN(150), FaultsUntilNs: int64(time.Second) * int64(1+r.IntN(20)),
@@ -181,6 +189,29 @@ func c20Run(rc *RunCtx, params any) {
 				}
 			})
 		}
+	}
+	for i := 0; i < p.ForgeAck; i++ {
+		d := s.Ch.Draw("forge-ack", func(r *rand.Rand) Dec { return Dec{A: int64(r.IntN(2)), B: r.Int64N(int64(3 * time.Second))} })
+		i := i
+		s.After(time.Duration(d.B)+time.Duration(i)*time.Microsecond, func() {
+			var body []byte
+			for e := uint64(3); e <= 10; e++ {
+				for q := uint64(0); q < 32; q++ {
+					body = append(body, u64(e)...)
+					body = append(body, u64(q)...)
+				}
+			}
+			rec := []byte{byte(CTACK), 0xfe, 0xfd, 0, 0}
+			rec = append(rec, u64(uint64(0x300000 + i))[2:]...)
+			rec = append(rec, byte((len(body)+2)>>8), byte(len(body)+2), byte(len(body)>>8), byte(len(body)))
+			rec = append(rec, body...)
+			s.Fault("forged-cleartext-ack")
+			if d.A == 0 {
+				n.InjectNow(pair.SAddr, pair.CAddr, rec)
+			} else {
+				n.InjectNow(pair.CAddr, pair.SAddr, rec)
+			}
+		})
 	}
 	tickStop := false
 	if p.TickMs > 0 {
@@ -388,6 +419,7 @@ func c20Run(rc *RunCtx, params any) {
 				rets = append(rets, u.retSeq)
 			}
 		}
+		sort.Slice(rets, func(a, b int) bool { return rets[a] < rets[b] })
 		for i, ret := range rets {
 			acked := 0
 			for ku, at := range ackedAt {
@@ -399,6 +431,19 @@ func c20Run(rc *RunCtx, params any) {
 			// retransmissions of one KeyUpdate may be acknowledged separately, so this is a lower-bound check
 			if acked == 0 {
 				rc.Violate("update-success-without-ack", "%s: UpdateKeys #%d returned nil at event %d, but no ACK covering any of its KeyUpdate records had been delivered to it by then", ep, i+1, ret)
+
+				return
+			}
+			// every successful call moved the sending epoch on by one, and a KeyUpdate is sent under
+			// the epoch it ends: i+1 successes need genuine ACKs for KeyUpdate records of i+1 epochs
+			epochs := map[uint16]bool{}
+			for ku, at := range ackedAt {
+				if ku.ep == ep && at < ret {
+					epochs[ku.epoch] = true
+				}
+			}
+			if len(epochs) < i+1 {
+				rc.Violate("update-success-without-ack", "%s: UpdateKeys call #%d (in order of return) returned nil at event %d, but by then ACKs written by the peer had been delivered for KeyUpdate records of only %d epoch(s) (forged cleartext ACKs injected: %d)", ep, i+1, ret, len(epochs), p.ForgeAck)
 
 				return
 			}
